@@ -79,6 +79,8 @@ func (u *Universe) ExoticLeaves() []*Ty {
 		&Ty{K: Struct, Fields: []Field{{Name: "A", T: B("int"), Tag: `json:"a,omitempty"`}}},
 		&Ty{K: Struct, Fields: []Field{{Name: "A", T: B("int"), Tag: "q`uote"}, {Name: "B", T: Fn("(...string)"), Tag: `json:"b"`}}},
 		&Ty{K: Struct, Fields: []Field{{Name: "P", T: p, Embedded: true}, {Name: "Z", T: B("int")}}},
+		// boundary lengths of fixed-size arrays (the main alphabet only has length 2)
+		A(0, B("int")), A(0, p), A(1, B("int")), A(0, B("string")),
 	)
 	return l
 }
